@@ -153,7 +153,7 @@ pub const STRING_ATOMS: &[&str] = &["is", "says", "\"q\"", "(c)", "it's", "a  b"
 pub const KNOWN_PROBE: &str = "x says it's \"great\nsay x\nsay 1\n";
 
 /// digit patterns for long literals (8..=40 words)
-pub const LONG_PATTERNS: &[&str] = &["1", "9", "1234567890", "50", "7"];
+pub const LONG_PATTERNS: &[&str] = &["1", "9", "1234567890", "50", "7", "0000012345678912", "00000000000000000009", "10000000000000000000000001"];
 
 fn long_case(idx: u64) -> (String, String) {
     let pos = (idx % 4) as usize;
